@@ -21,10 +21,10 @@ Init == l = 1 /\ t = NoTopo /\ tc = <<>> /\ wf = FALSE
 IsEvent(e) == l <= Len(T) /\ T[l].e = e /\ l' = l + 1
 E == T[l]
 Same == UNCHANGED <<t, tc, wf>>
-\* a helper call: there is a projected topology, the call does not change it, and (on a well-formed topology) the relation holds.
-\* "= TRUE" makes TLC evaluate the relation as a state-level expression (left-to-right, short-circuit) instead of walking its
-\* disjunctions as alternative actions, which would evaluate guarded right-hand sides such as O(t, parent) with parent = 0.
-Query(e, rel) == IsEvent(e) /\ t.n > 0 /\ ((wf => rel) = TRUE) /\ Same
+\* a helper call: there is a projected topology, the call does not change it, and (on a well-formed topology) the relation
+\* RelOf (below) holds.  "= TRUE" makes TLC evaluate the relation as a state-level expression (left-to-right, short-circuit)
+\* instead of walking its disjunctions as alternative actions, which would evaluate guarded right-hand sides such as
+\* O(t, parent) with parent = 0.
 IsObj(i) == i \in Pos(t)
 IsSetArg(r) == \A k \in DOMAIN r : r[k][1] >= 0 /\ (r[k][2] = -1 \/ r[k][2] >= r[k][1])
 
@@ -42,38 +42,82 @@ TTopo == /\ IsEvent("topo") /\ t.n = 0 /\ E.topo.n > 0
          /\ wf' = (WellFormed(E.topo) /\ TypeOrderSane(E.tcmp))
          /\ (~wf' => PrintT("DRIFT C09: a projected topology is not well formed (" \o FirstBad(E.topo, 1) \o "); its helper results are not judged"))
 
-TCovering == Query("covering", IsSetArg(E.set) /\ ObjCoveringRel(t, SetR(E.set), E.res))
-TChildCovering == Query("child_covering", IsSetArg(E.set) /\ IsObj(E.parent) /\ ChildCoveringRel(t, SetR(E.set), E.parent, E.res))
-TCacheCovering == Query("cache_covering", IsSetArg(E.set) /\ CacheCoveringRel(t, SetR(E.set), E.res))
-TFirstLargest == Query("first_largest", IsSetArg(E.set) /\ FirstLargestRel(t, SetR(E.set), E.res))
-TLargest == Query("largest", IsSetArg(E.set) /\ LargestRel(t, SetR(E.set), E.max, E.ret, E.objs, E.clean))
-TInsideDepth == Query("inside_depth", IsSetArg(E.set) /\ E.trunc = 0 /\ InsideDepthRel(t, SetR(E.set), E.depth, E.iter, E.nb, E.byidx))
-TInsideType == Query("inside_type", IsSetArg(E.set) /\ E.trunc = 0 /\ InsideTypeRel(t, SetR(E.set), E.type, E.iter, E.nb, E.byidx))
-TIndexInside == Query("index_inside", IsSetArg(E.set) /\ IsObj(E.obj) /\ IndexInsideRel(t, SetR(E.set), E.obj, E.res))
-TCoveringDepth == Query("covering_depth", IsSetArg(E.set) /\ E.trunc = 0 /\ CoveringDepthRel(t, SetR(E.set), E.depth, E.iter))
-TCoveringType == Query("covering_type", IsSetArg(E.set) /\ E.trunc = 0 /\ CoveringTypeRel(t, SetR(E.set), E.type, E.iter))
-TAncDepth == Query("anc_depth", IsObj(E.obj) /\ AncDepthRel(t, E.obj, E.depth, E.res))
-TAncType == Query("anc_type", IsObj(E.obj) /\ AncTypeRel(t, E.obj, E.type, E.res))
-TCommon == Query("common", IsObj(E.a) /\ IsObj(E.b) /\ CommonRel(t, E.a, E.b, E.res))
-TInSubtree == Query("in_subtree", IsObj(E.obj) /\ IsObj(E.root) /\ InSubtreeRel(t, E.obj, E.root, E.res))
-TNextChild == Query("next_child", IsObj(E.parent) /\ E.trunc = 0 /\ NextChildRel(t, E.parent, E.iter))
-TSharedCache == Query("shared_cache", IsObj(E.obj) /\ SharedCacheRel(t, E.obj, E.res))
-TNonIOAnc == Query("non_io_anc", IsObj(E.obj) /\ NonIOAncRel(t, E.obj, E.res))
-TClosest == Query("closest", IsObj(E.src) /\ ClosestRel(t, E.src, E.max, E.ret, E.objs, E.clean))
-TBelow == Query("below", BelowRel(t, E.t1, E.i1, E.t2, E.i2, E.res))
-TBelowArray == Query("below_array", BelowArrayRel(t, E.types, E.idxs, E.res))
-TToNodeset == Query("to_nodeset", IsSetArg(E.set) /\ ToNodesetRel(t, SetR(E.set), E.ret, E.res))
-TFromNodeset == Query("from_nodeset", IsSetArg(E.set) /\ FromNodesetRel(t, SetR(E.set), E.ret, E.res))
-TSameLocality == Query("same_locality", IsObj(E.src) /\ SameLocalityRel(t, E.src, E.type, E.st, E.np, E.flags, E.res, E.errno))
-TTypeDepth == Query("type_depth", TypeDepthRel(t, E.type, E.d))
-TTypeLookup == Query("type_lookup", E.trunc = 0 /\ TypeLookupRel(t, tc, E.type, E.d, E.below, E.above, E.nb, E.iter, E.byidx))
-TDepthLookup == Query("depth_lookup", E.trunc = 0 /\ DepthLookupRel(t, E.depth, E.type, E.nb, E.iter, E.byidx))
-TCacheTypeDepth == Query("cache_type_depth", CacheTypeDepthRel(t, E.level, E.ctype, E.res))
-TPuByOs == Query("pu_by_os", ByOsRel(t, PU, E.os, E.res))
-TNumaByOs == Query("numa_by_os", ByOsRel(t, NUMANODE, E.os, E.res))
-TDistrib == Query("distrib", (\A k \in DOMAIN E.roots : IsObj(E.roots[k]) /\ HasCS(O(t, E.roots[k])))
-                             /\ DistribRel(t, E.roots, E.n, E.until, E.flags, E.ret, E.errno, E.sets, E.nulls, E.over))
-TSinglify == Query("singlify", IsSetArg(E.set) /\ SinglifyRel(t, SetR(E.set), E.which, E.ret, E.res))
+\* the relation an event of kind e must satisfy (E is the event)
+RelOf(e) ==
+  CASE e = "covering" -> IsSetArg(E.set) /\ ObjCoveringRel(t, SetR(E.set), E.res)
+    [] e = "child_covering" -> IsSetArg(E.set) /\ IsObj(E.parent) /\ ChildCoveringRel(t, SetR(E.set), E.parent, E.res)
+    [] e = "cache_covering" -> IsSetArg(E.set) /\ CacheCoveringRel(t, SetR(E.set), E.res)
+    [] e = "first_largest" -> IsSetArg(E.set) /\ FirstLargestRel(t, SetR(E.set), E.res)
+    [] e = "largest" -> IsSetArg(E.set) /\ LargestRel(t, SetR(E.set), E.max, E.ret, E.objs, E.clean)
+    [] e = "inside_depth" -> IsSetArg(E.set) /\ E.trunc = 0 /\ InsideDepthRel(t, SetR(E.set), E.depth, E.iter, E.nb, E.byidx)
+    [] e = "inside_type" -> IsSetArg(E.set) /\ E.trunc = 0 /\ InsideTypeRel(t, SetR(E.set), E.type, E.iter, E.nb, E.byidx)
+    [] e = "index_inside" -> IsSetArg(E.set) /\ IsObj(E.obj) /\ IndexInsideRel(t, SetR(E.set), E.obj, E.res)
+    [] e = "covering_depth" -> IsSetArg(E.set) /\ E.trunc = 0 /\ CoveringDepthRel(t, SetR(E.set), E.depth, E.iter)
+    [] e = "covering_type" -> IsSetArg(E.set) /\ E.trunc = 0 /\ CoveringTypeRel(t, SetR(E.set), E.type, E.iter)
+    [] e = "anc_depth" -> IsObj(E.obj) /\ AncDepthRel(t, E.obj, E.depth, E.res)
+    [] e = "anc_type" -> IsObj(E.obj) /\ AncTypeRel(t, E.obj, E.type, E.res)
+    [] e = "common" -> IsObj(E.a) /\ IsObj(E.b) /\ CommonRel(t, E.a, E.b, E.res)
+    [] e = "in_subtree" -> IsObj(E.obj) /\ IsObj(E.root) /\ InSubtreeRel(t, E.obj, E.root, E.res)
+    [] e = "next_child" -> IsObj(E.parent) /\ E.trunc = 0 /\ NextChildRel(t, E.parent, E.iter)
+    [] e = "shared_cache" -> IsObj(E.obj) /\ SharedCacheRel(t, E.obj, E.res)
+    [] e = "non_io_anc" -> IsObj(E.obj) /\ NonIOAncRel(t, E.obj, E.res)
+    [] e = "closest" -> IsObj(E.src) /\ ClosestRel(t, E.src, E.max, E.ret, E.objs, E.clean)
+    [] e = "below" -> BelowRel(t, E.t1, E.i1, E.t2, E.i2, E.res)
+    [] e = "below_array" -> BelowArrayRel(t, E.types, E.idxs, E.res)
+    [] e = "to_nodeset" -> IsSetArg(E.set) /\ ToNodesetRel(t, SetR(E.set), E.ret, E.res)
+    [] e = "from_nodeset" -> IsSetArg(E.set) /\ FromNodesetRel(t, SetR(E.set), E.ret, E.res)
+    [] e = "same_locality" -> IsObj(E.src) /\ SameLocalityRel(t, E.src, E.type, E.st, E.np, E.flags, E.res, E.errno)
+    [] e = "type_depth" -> TypeDepthRel(t, E.type, E.d)
+    [] e = "type_lookup" -> E.trunc = 0 /\ TypeLookupRel(t, tc, E.type, E.d, E.below, E.above, E.nb, E.iter, E.byidx)
+    [] e = "depth_lookup" -> E.trunc = 0 /\ DepthLookupRel(t, E.depth, E.type, E.nb, E.iter, E.byidx)
+    [] e = "cache_type_depth" -> CacheTypeDepthRel(t, E.level, E.ctype, E.res)
+    [] e = "pu_by_os" -> ByOsRel(t, PU, E.os, E.res)
+    [] e = "numa_by_os" -> ByOsRel(t, NUMANODE, E.os, E.res)
+    [] e = "distrib" -> (\A k \in DOMAIN E.roots : IsObj(E.roots[k]) /\ HasCS(O(t, E.roots[k])))
+                        /\ DistribRel(t, E.roots, E.n, E.until, E.flags, E.ret, E.errno, E.sets, E.nulls, E.over)
+    [] e = "mem_parents_depth" -> MemParentsDepthRel(t, E.res)
+    [] e = "type_depth_attr" -> TypeDepthAttrRel(t, E.type, E.gdepth, E.noattr, E.res)
+    [] e = "pcidev_by_busid" -> PciByBusidRel(t, E.dom, E.bus, E.dev, E.func, E.res, E.sres, E.short)
+    [] e = "bridge_covers" -> IsObj(E.obj) /\ BridgeCoversRel(t, E.obj, E.dom, E.bus, E.res)
+    [] e = "singlify" -> IsSetArg(E.set) /\ SinglifyRel(t, SetR(E.set), E.which, E.ret, E.res)
+
+Query(e) == IsEvent(e) /\ t.n > 0 /\ ((wf => RelOf(e)) = TRUE) /\ Same
+
+TCovering == Query("covering")
+TChildCovering == Query("child_covering")
+TCacheCovering == Query("cache_covering")
+TFirstLargest == Query("first_largest")
+TLargest == Query("largest")
+TInsideDepth == Query("inside_depth")
+TInsideType == Query("inside_type")
+TIndexInside == Query("index_inside")
+TCoveringDepth == Query("covering_depth")
+TCoveringType == Query("covering_type")
+TAncDepth == Query("anc_depth")
+TAncType == Query("anc_type")
+TCommon == Query("common")
+TInSubtree == Query("in_subtree")
+TNextChild == Query("next_child")
+TSharedCache == Query("shared_cache")
+TNonIOAnc == Query("non_io_anc")
+TClosest == Query("closest")
+TBelow == Query("below")
+TBelowArray == Query("below_array")
+TToNodeset == Query("to_nodeset")
+TFromNodeset == Query("from_nodeset")
+TSameLocality == Query("same_locality")
+TTypeDepth == Query("type_depth")
+TTypeLookup == Query("type_lookup")
+TDepthLookup == Query("depth_lookup")
+TCacheTypeDepth == Query("cache_type_depth")
+TPuByOs == Query("pu_by_os")
+TNumaByOs == Query("numa_by_os")
+TDistrib == Query("distrib")
+TSinglify == Query("singlify")
+TMemParentsDepth == Query("mem_parents_depth")
+TTypeDepthAttr == Query("type_depth_attr")
+TPciByBusid == Query("pcidev_by_busid")
+TBridgeCovers == Query("bridge_covers")
 
 Next == \/ TReset \/ TSetup \/ TExport \/ TTopo
         \/ TCovering \/ TChildCovering \/ TCacheCovering \/ TFirstLargest \/ TLargest
@@ -81,7 +125,7 @@ Next == \/ TReset \/ TSetup \/ TExport \/ TTopo
         \/ TAncDepth \/ TAncType \/ TCommon \/ TInSubtree \/ TNextChild \/ TSharedCache \/ TNonIOAnc
         \/ TClosest \/ TBelow \/ TBelowArray \/ TToNodeset \/ TFromNodeset \/ TSameLocality
         \/ TTypeDepth \/ TTypeLookup \/ TDepthLookup \/ TCacheTypeDepth \/ TPuByOs \/ TNumaByOs
-        \/ TDistrib \/ TSinglify
+        \/ TDistrib \/ TSinglify \/ TMemParentsDepth \/ TTypeDepthAttr \/ TPciByBusid \/ TBridgeCovers
 Spec == Init /\ [][Next]_<<l, t, tc, wf>>
 
 Accepted == TLCGet("stats").diameter - 1 = Len(T)
